@@ -1,4 +1,5 @@
 import Rtcm.Model.Scan
+import Rtcm.Model.Bits
 /-!
 Line-protocol driver for the correspondence check: one operation per input line, one canonical
 answer line per operation. Import-free below (no Mathlib) so that it links as an executable.
@@ -44,7 +45,36 @@ def parseNats (s : String) : Option (List Nat) := (s.splitOn ",").mapM String.to
 def parseChunks (s : String) : Option (List (List UInt8)) :=
   (s.splitOn "|").mapM bytesOfHex
 
-def handle (line : String) : String :=
+def parseKind : String → Option Bits.Kind
+  | "U" => some .u | "I" => some .i | "SM" => some .sm | _ => none
+
+def resStr {α} (f : α → String) : Res α → String
+  | .ok a => f a
+  | .err e => "ERR " ++ e.name
+  | .panic _ => "PANIC"
+
+def natBytes (d : List UInt8) : List Nat := d.map (·.toNat)
+def bytesNat (d : List Nat) : List UInt8 := d.map UInt8.ofNat
+
+def opPut (cfg : Cfg) (it : Bits.IT) (off len value : Nat) (buf : List UInt8) : String :=
+  resStr (fun r => hexOrDash (bytesNat r.1) ++ s!" {r.2}") (Bits.put cfg it (natBytes buf) off value len)
+
+def opParse (cfg : Cfg) (it : Bits.IT) (off len : Nat) (buf : List UInt8) : String :=
+  resStr (fun r => s!"{r.1} {r.2}") (Bits.parse cfg it (natBytes buf) off len)
+
+def handleCfg (cfg : Cfg) (toks : List String) : String :=
+  match toks with
+  | ["PUT", k, w, off, len, v, h] =>
+    match parseKind k, w.toNat?, off.toNat?, len.toNat?, v.toNat?, bytesOfHex h with
+    | some k, some w, some off, some len, some v, some d => opPut cfg ⟨k, w⟩ off len v d
+    | _, _, _, _, _, _ => "BAD-OP"
+  | ["PARSE", k, w, off, len, h] =>
+    match parseKind k, w.toNat?, off.toNat?, len.toNat?, bytesOfHex h with
+    | some k, some w, some off, some len, some d => opParse cfg ⟨k, w⟩ off len d
+    | _, _, _, _, _ => "BAD-OP"
+  | _ => "BAD-OP"
+
+def handle (checked : Bool) (line : String) : String :=
   match line.trimAscii.toString.splitOn " " with
   | ["FRAME", h] => match bytesOfHex h with | some d => opFrame d | none => "BAD-OP"
   | ["SCAN", h] => match bytesOfHex h with | some d => opScan d | none => "BAD-OP"
@@ -54,6 +84,6 @@ def handle (line : String) : String :=
     match bytesOfHex h, parseNats b with
     | some d, some bs => opFlip d bs
     | _, _ => "BAD-OP"
-  | _ => "BAD-OP"
+  | toks => handleCfg ⟨checked⟩ toks
 
 end Rtcm.Driver
